@@ -156,6 +156,24 @@ Theorem C19_lines_work_as_dict_keys :
 Proof. intros r W khash ksame H1 H2 H3 V d k v Hd Hk. apply (line_dict r W khash ksame H2 H3 V d k v Hd Hk). Qed.
 Print Assumptions C19_lines_work_as_dict_keys.
 
+(* holds of EVERY program that loads, well-formed or not: an isotope carries the atomic number of the
+   element it was built on (Isotope.__init__ passes element.atomic_number to Element.__init__) *)
+Theorem C19_isotope_number_by_construction :
+  forall prog r, load prog = Some r -> forall i, In i (isotopes r) -> i_Z i = e_Z (i_element i).
+Proof. exact isotope_number_by_construction. Qed.
+Print Assumptions C19_isotope_number_by_construction.
+
+(* the key-disjointness clauses of wf are not stronger than the property: in ANY registry in which
+   every key of every element (isotope) leads back to it, they hold *)
+Theorem C19_wf_key_clauses_necessary :
+  forall r,
+  ((forall e k, In e (elements r) -> In k (element_keys e) -> idx_get (element_index r) k = Some e) ->
+   pairwise_disjoint e_name element_keys (elements r) = true)
+  /\ ((forall i k, In i (isotopes r) -> In k (isotope_keys i) -> idx_get (isotope_index r) k = Some i) ->
+      pairwise_disjoint i_name isotope_keys (isotopes r) = true).
+Proof. intros r. split; apply lookups_imply_disjoint. Qed.
+Print Assumptions C19_wf_key_clauses_necessary.
+
 (* non-vacuity: a two-element, three-isotope program that loads and is well-formed *)
 Local Open Scope string_scope.
 Example C19_nonvacuous :
